@@ -205,7 +205,8 @@ def section_ecef_to_lla(rep, mutate=None):
         a = T.ecef_to_lla(O([x, y, z]))
         b = T.ecef_to_lla(O([x, y, -z]))
         st = T.ecef_to_lla(O([[x, y, z], [x, y, -z]]))
-        return a, b, st
+        am = T.ecef_to_lla(O([-rho, J(0), z]))          # exactly on the antimeridian
+        return a, b, st, am
     ex = paths.Exec(S.C.dom + [S.DEG > S.rat(S.DEG_LO), S.DEG < S.rat(S.DEG_HI)], timeout_ms=20000)
     res, _ = ex.run(body, max_paths=64)
     per_path = []
@@ -214,7 +215,7 @@ def section_ecef_to_lla(rep, mutate=None):
             continue
         if pr.status != 'ok':
             raise RuntimeError('ecef_to_lla did not run symbolically: %s' % (pr.out,))
-        a, b, st = pr.out
+        a, b, st, am = pr.out
         obls = []
         extra = list(pr.pc)
         Zp = lambda name, e: obls.append(enga.zero(name, e, 'ecef_to_lla structure', extra, {'check': 'ecef'}))
@@ -223,6 +224,7 @@ def section_ecef_to_lla(rep, mutate=None):
         obls.append(enga.zero('z -> -z mirrors latitude (z != 0)', J(a[0]) + J(b[0]), 'ecef_to_lla structure',
                               extra + [z3.Real('z') != 0], {'check': 'ecef'}))
         Zp('z -> -z keeps altitude', J(a[2]) - J(b[2]))
+        Zp('a point on the antimeridian (x < 0, y = 0) has longitude +-180', (J(am[1]) - 180) * (J(am[1]) + 180))
         Zp('z -> -z keeps longitude', J(a[1]) - J(b[1]))
         for i in range(3):
             Zp('stacked row 0 = single [%d]' % i, J(st[0][i]) - J(a[i]))
@@ -454,6 +456,15 @@ def replay(spec):
         st = transform.ecef_to_lla(np.array([r, r * [1, 1, -1]]))
         if not (np.allclose(st[0], a, rtol=0, atol=1e-12) and np.allclose(st[1], b, rtol=0, atol=1e-12)):
             fails.append('stacked != single')
+        am = transform.ecef_to_lla(np.array([-abs(rho), 0.0, z]))
+        if abs(abs(am[1]) - 180.0) > 1e-12:
+            fails.append('a point on the antimeridian has longitude %r, not +-180' % am[1])
+        for lon_ in (179.9999999, -179.99999999, 180.0, -180.0):
+            p_ = np.array([10.0, lon_, 100.0])
+            back = transform.ecef_to_lla(transform.lla_to_ecef(p_))
+            dl = abs(((back[1] - lon_ + 180) % 360) - 180) * 111e3
+            if dl > 1e-6 or abs(back[0] - 10.0) * 111e3 > 1e-6:
+                fails.append('round trip next to the antimeridian: lon %r comes back as %r (%.3g m)' % (lon_, back[1], dl))
         return {'violated': bool(fails), 'detail': fails}
     lla = np.array([lat, lon, alt])
     r_e = transform.lla_to_ecef(lla)
